@@ -78,6 +78,20 @@ COMPOSITES_NEEDED = (
     + ["instr_flag_not_on_last", "hinted_with_zero_instructions", "followed_by_simple_with_instructions", "followed_by_composite"]
 )
 
+# container-level features (measured by the harness on what it encoded) that must be non-zero in every run
+FEATURES_NEEDED = [
+    "coll.members_differ_in_numGlyphs", "coll.members_differ_in_bitmap_words", "coll.members_differ_in_numberOfHMetrics",
+    "coll.members_differ_in_loca_format", "coll.mixed_transform.first_transformed", "coll.mixed_transform.first_null",
+    "coll.members_differ_in_hmtx_transform", "coll.three_members", "coll.glyf_shared",
+    "coll.glyf_shared_by_first_and_third_only", "coll.first_member_glyf_not_first_in_directory",
+    "overlap.bitmap_present", "overlap.bits_set", "overlap.length_differs_from_bbox_bitmap",
+    "tags.transformed_glyf_spelled_out", "tags.transformed_hmtx_spelled_out",
+    "ext.coordinate=32767", "ext.coordinate=-32768", "ext.delta=32767", "ext.delta=-32768", "ext.component_gid=65535",
+    "ext.component_arg=-32768", "ext.component_arg=32767", "ext.component_arg=65535", "ext.component_arg=-128",
+    "ext.component_arg=127", "ext.component_arg=255", "ext.component_scale=both_ends", "ext.elided_lsb=-32768",
+    "ext.advance=65535", "meta.blocks=1", "meta.blocks=2", "dir.all_known_tags_by_index", "dir.all_known_tags_spelled_out",
+]
+
 FAMILY = [(10, "y8"), (20, "x8"), (84, "4x4"), (120, "8x8"), (124, "12x12"), (128, "16x16")]
 
 
@@ -207,7 +221,7 @@ def _run_mc(ctx, binp):
                 kind = m.group(1) if m else "?"
                 if kind not in samples and len(payload) < 6000:
                     samples[kind] = payload
-        mc = vlib.run_tlc(ctx, "MC_Woff2", cfg, "mc", workers=4, timeout=600 if ctx.quick else 1500, sink=sink)
+        mc = vlib.run_tlc(ctx, "MC_Woff2", cfg, "mc", workers=4, timeout=1500 if ctx.quick else 3000, sink=sink)
     ctx.note("MC_Woff2 (%s): %d states generated, %d distinct, %d cases, lemmas hold (%.1fs)" %
              (cfg, mc.generated, mc.distinct, n_cases[0], mc.wall))
     if n_cases[0] == 0:
@@ -259,6 +273,7 @@ def _run(ctx, violations, cov):
     if rep["triplet_entries_exercised"] != 128 or rep["u255_first_bytes_exercised"] != 256:
         raise vlib.ToolError("vacuous vectors: %s triplet entries, %s first bytes" % (rep["triplet_entries_exercised"], rep["u255_first_bytes_exercised"]))
     needed = ["glyf=0", "glyf=3", "hmtx=0", "hmtx=1", "hmtx=2", "hmtx=3", "nhm<n=true", "coll=single", "coll=same", "coll=hm", "coll=other",
+              "coll=sub", "coll=tri", "coll=mixt", "tags=explicitall", "meta=0", "meta=1", "meta=2", "overlap=0", "overlap=1",
               "trip=ref", "trip=min", "trip=max", "trip=alt", "u16=short", "u16=word", "u16=alt", "bbox=needed", "bbox=all",
               "order=asis", "order=bytag", "order=reverse", "tags=known", "tags=explicit"]
     missing = [k for k in needed if not rep["choices"].get(k)]
@@ -275,6 +290,8 @@ def _run(ctx, violations, cov):
     # kind and flag bit at every position of composites of 1, 2 and 3 components
     comp = rep.get("composites", {})
     missing += ["composite " + k for k in COMPOSITES_NEEDED if not comp.get(k)]
+    feat = rep.get("features", {})
+    missing += ["feature " + k for k in FEATURES_NEEDED if not feat.get(k)]
     if missing:
         raise vlib.ToolError("vacuous generator: no case with %s" % missing)
     # the loca counters above are predicted from the input; when the loca family decodes without any mismatch the
@@ -284,6 +301,7 @@ def _run(ctx, violations, cov):
         raise vlib.ToolError("loca boundary family decodes cleanly but the rebuilt glyf did not reach 131070 / cross it: %s" %
                              {k: v for k, v in bnd.items() if k.startswith("loca.")})
     ctx.note("boundaries: %s" % json.dumps({k: bnd[k] for k in sorted(bnd) if k.startswith(("bitmap.n=32k", "loca."))}))
+    ctx.note("features: %s" % json.dumps(feat, sort_keys=True))
     ctx.note("composites: %s" % json.dumps({k: comp[k] for k in sorted(comp) if ".instr_at=" in k or "." not in k}))
 
     # binding self-check 1: corrupted expectations must be reported by replay, a corrupted stream by the
@@ -502,6 +520,7 @@ def _run(ctx, violations, cov):
         "glyph_kinds_generated": rep["glyph_kinds"],
         "size_boundaries_generated": bnd,
         "composite_positions_generated": comp,
+        "container_features_generated": feat,
         "glyph_counts_decoded_through_glyf_transform": rep.get("glyph_counts_transformed", []),
         "bitmap_length_lemma": "BitmapLenRule(n) checked by TLC for n = 0..130 (encoder length = decoder length = "
                                "4*floor((n+31)/32), minimal, bits read back, last-glyph bbox split)",
